@@ -103,6 +103,25 @@ def gen(chk, per_font):
             ops.append('just:%d:%s:%d:-:-' % (rng.randrange(0, len(breaks) + 1), wd, rng.randrange(4)))
         cases.append(S.case_line('j%d' % len(cases), path, S.encode(cps, 32), 32, dir_=0, ppm=rng.choice(('-', '12', '96')), ops=ops))
         meta.append(dict(font=name, dir=0, nb=len(breaks)))
+    # fonts with line-end contextuals (Silf flag 1): justify brackets the line with two end-of-line slots (addLineEnd / delLineEnd)
+    for base, txts in (('Scheherazadegr.ttf', ([0x20, 0x627], [0x628, 0x633, 0x645, 0x20, 0x627, 0x644, 0x644, 0x647])), ('Padauk.ttf', ([0x1000, 0x1001], [0x1000, 0x1031, 0x1001, 0x20, 0x1002, 0x1003])),
+                       ('charis_r_gr.ttf', ([0x61, 0x62], [0x61, 0x62, 0x20, 0x63, 0x64, 0x65]))):
+        name = base + '~lineend'
+        path = crafted_font(name)
+        rep = S.repertoire(vlib.REPO, base)
+        for i in range(max(4, per_font // 3)):
+            cps = list(txts[i]) if i < 2 else S.gen_text(rng, rep, 9)
+            if len(cps) < 2:
+                continue
+            n = len(cps)
+            # the font's own direction only: the calls of the recorded reversal defects (other directions) are the business of the families above
+            d = rng.choice((1, 1, 3, 5, 7)) if base.startswith('Sch') else 0
+            breaks = [] if i < 2 else sorted(rng.sample(range(1, n), min(rng.randrange(0, 3), n - 1)))
+            ops = ['dump', 'jtrace'] + ['break:%d' % b for b in breaks]
+            for k in range(1 if i < 2 else rng.randrange(1, 4)):
+                ops.append('just:%d:%s:%d:%s:%s' % (rng.randrange(0, len(breaks) + 1), rng.choice(('2000', '6000', '-1', '300')), rng.randrange(4), '-', '1' if i == 1 else rng.choice(('-', '-', '1', '2'))))
+            cases.append(S.case_line('e%d' % len(cases), path, S.encode(cps, 32), 32, dir_=d, ppm=rng.choice(('-', '12')), ops=ops))
+            meta.append(dict(font=name, dir=d, nb=len(breaks)))
     return cases, meta
 
 
@@ -141,6 +160,9 @@ def run(chk):
         else:
             run.fdirs[mt['font']] = fdir
         kc = known_class(mt['dir'], fdir) if fdir is not None else None
+        # the recorded defect of right-to-left lines in fonts with line-end contextuals: linkClusters chains the bases of a right-to-left
+        # segment backwards, justify takes pLast->nextSibling() for the slot after the line and links both end-of-line slots before one slot
+        kle = 'justify-rtl-line-end-slots-linked-before-one-slot' if (kc is None and mt['font'].endswith('~lineend') and fdir == 1 and (mt['dir'] & 1) == 1) else None
         if 'ABORT' in head[1:3]:
             key = 'c19:' + kc if kc else 'c19:abort:%s' % ' '.join(c.split()[2:12])[:140]
             chk.violation(key, 'line breaking / justification did not return normally: %s' % parts[0][:200], dict(case=c, got=i[:500])); continue
@@ -155,6 +177,8 @@ def run(chk):
             # code reproduces the damaged links exactly; damage it does not reproduce is a different defect, whatever the trigger
             expected = kc is not None and pm == 'ok'
             key = 'c19:' + kc if expected else 'c19:%s:%s' % (bad[0].split()[1].split('(')[0], ' '.join(c.split()[2:14])[:160])
+            if kle and not expected and all(b.split()[1].split(':')[-1].split('(')[0].split('@')[0] in ('prev-not-inverse', 'first-has-prev') for b in bad):
+                key, expected = 'c19:' + kle, True
             chk.violation(key, 'after linebreak/justify a line is no longer the same well-formed chain: %s%s' % (bad[0][:120], '' if expected else
                           (' (the links differ from what the recorded code does to them: %s)' % (m or '').split(' | P ', 1)[-1][:300] if pm != 'ok' else ' (outside the recorded trigger classes)')),
                           dict(case=c, got=i[:1500]))
